@@ -312,6 +312,104 @@ func gen(c *hx.Ctx) {
 			c.Count("unique_exhaustive")
 		})
 	}
+	// run-structured inputs: long runs (around 16/32/64/…: thresholds of any "skip ahead in a long run" shortcut),
+	// values from a tiny alphabet so that a run's value reappears in later runs (UNSORTED), and sorted variants
+	runLens := []int{1, 2, 15, 16, 17, 18, 31, 32, 33, 63, 64, 65, 100, 257}
+	genRuns := func(maxLen int, sorted bool) []int {
+		letters := c.Rng.Range(2, 4)
+		nruns := c.Rng.Range(2, 40)
+		a := make([]int, 0, 256)
+		prev := -1
+		for r := 0; r < nruns; r++ {
+			l := c.Rng.Pick(runLens)
+			if c.Rng.Intn(6) == 0 {
+				l = c.Rng.Range(1, 70)
+			}
+			if len(a)+l > maxLen {
+				break
+			}
+			v := prev + 1 // sorted: strictly increasing run values
+			if !sorted {
+				v = c.Rng.Intn(letters)
+				if v == prev {
+					v = (v + 1) % letters
+				}
+			} else if c.Rng.Intn(4) == 0 {
+				v = prev + c.Rng.Range(1, 5)
+			}
+			for k := 0; k < l; k++ {
+				a = append(a, v)
+			}
+			prev = v
+		}
+		return a
+	}
+	for i := 0; i < c.Budget(700, 12000); i++ {
+		maxLen := c.Rng.Pick([]int{40, 80, 200, 600, 3000})
+		sorted := c.Rng.Intn(4) == 0
+		a := genRuns(maxLen, sorted)
+		kind := "int"
+		if i%2 == 1 {
+			kind = "str"
+		}
+		if sorted {
+			c.Count("unique_runs_sorted")
+		} else {
+			c.Count("unique_runs_unsorted")
+		}
+		c.Emit("unique %s %s", kind, showInts(a))
+	}
+	// two-run-value patterns with every pair of lengths from the table: x^p y^q x^r z^2 (value x reappears q after its long run)
+	for pi, p := range runLens {
+		for qi, q := range runLens {
+			if !c.Thorough() && (pi+qi)%2 == 1 {
+				continue
+			}
+			a := make([]int, 0, p+q+12)
+			for k := 0; k < p; k++ {
+				a = append(a, 0)
+			}
+			for k := 0; k < q; k++ {
+				a = append(a, 1)
+			}
+			for k := 0; k < c.Rng.Pick([]int{1, 8, 17}); k++ {
+				a = append(a, 0)
+			}
+			a = append(a, 2, 2, 2)
+			kind := "int"
+			if (pi+qi)%4 >= 2 {
+				kind = "str"
+			}
+			c.Emit("unique %s %s", kind, showInts(a))
+			c.Count("unique_runs_grid")
+		}
+	}
+	if c.Thorough() {
+		for i := 0; i < 6; i++ {
+			a := make([]int, 0, 100000)
+			prev := -1
+			for len(a) < 100000 {
+				l := c.Rng.Pick(runLens) * c.Rng.Pick([]int{1, 1, 4, 16})
+				v := c.Rng.Intn(3)
+				if v == prev {
+					v = (v + 1) % 3
+				}
+				if i%3 == 2 {
+					v = prev + 1
+				}
+				for k := 0; k < l && len(a) < 100000; k++ {
+					a = append(a, v)
+				}
+				prev = v
+			}
+			kind := "int"
+			if i%2 == 1 {
+				kind = "str"
+			}
+			c.Emit("unique %s %s", kind, showInts(a))
+			c.Count("unique_runs_100k")
+		}
+	}
 	for i := 0; i < c.Budget(1500, 20000); i++ {
 		n := c.Rng.Range(0, 40)
 		if c.Rng.Intn(20) == 0 {
